@@ -45,6 +45,7 @@ WORKLOADS = {
     "cancel_canary": ("w_cancel.cpp", ()),
     "bulk": ("w_bulk.cpp", ()),
     "find_if": ("w_bulk.cpp", ()),
+    "stream": ("w_stream.cpp", ()),
 }
 
 PROPS = {
@@ -289,5 +290,27 @@ PROPS = {
         real=["bulk_schedule, bulk_transform, bulk_join", "find_if (sequential and parallel paths: let_value_with, let_value_with_stop_source, let_done)",
               "static_thread_pool, single_thread_context, inline_scheduler"],
         stub=["pthread layer, heap with red zones (usim)"],
+    ),
+    "C13": dict(
+        title="Streams deliver the adapted sequence in order and clean up exactly once",
+        batches=[
+            B("w_stream.cpp", "stream", quick=14, thorough=240, oracles=["c13.", "c01.", "c02."] + RT_ALL),
+            B("w_stream.cpp", "stream", cfg="S17r", quick=6, thorough=90, oracles=["c13.", "c01.", "c02."] + RT_ALL),
+        ],
+        level_text=("Seeded runs of reduce_stream over twelve adaptor pipelines (plain source, transform, filter, take_until, stop_immediately, "
+                    "type_erase, filter(transform), on_stream, transform(filter), stop_immediately(transform), take_until(filter), "
+                    "type_erase(take_until)) above scripted source streams: 0-6 elements, an optional failing next() at a drawn position, every "
+                    "next()/cleanup() sender a harness gate that completes inline or is opened later by an opener thread and honours stop or not; "
+                    "the take_until trigger fires after a drawn number of source pulls; a stop request arrives before start, from a stopper "
+                    "thread or from inside element k; consumer on the inline scheduler or a single_thread_context. Oracles: delivered elements are "
+                    "a prefix of (and without stop/trigger exactly) the sequence the adaptor's definition prescribes, in order; the result is the "
+                    "fold over precisely those elements, an error only if the source failed, never done; per underlying stream whose next() was "
+                    "started: cleanup() exactly once, after the outstanding next() completed and before the consumer's result; next() operations "
+                    "never overlap; child op states are never destroyed while running; shadow memory and leak checks."),
+        level_note=("Trusted: usim stubs, harness gates. Not driven: range_stream/single/never_stream sources (the scripted source subsumes their "
+                    "shapes), for_each (a reduce_stream wrapper), delay, via_stream/typed_via_stream (finally() cannot adapt the value-less cleanup "
+                    "sender of the harness source), next/cleanup_adapt_stream, the manual consumer calling cleanup() without next()."),
+        real=["reduce_stream", "transform_stream, filter_stream, adapt_stream/next_adapt_stream", "take_until", "stop_immediately", "type_erased_stream (+any_scheduler)", "on_stream"],
+        stub=["scripted source streams and gates (kit/gate.hpp)", "pthread layer, heap (usim)"],
     ),
 }
